@@ -75,6 +75,7 @@ pub enum DevOutcome {
 }
 
 pub struct Honest {
+    pub layout: u64,
     pub snap: Snapshot,
     pub meta: Meta,
     pub verdict: m1::Verdict,
@@ -92,7 +93,8 @@ pub fn honest(g: &Gadget) -> Result<Honest, String> {
             let meta = meta.lock().unwrap().clone();
             let verdict = m1::decide_self(&snap);
             let outs = meta.outs.iter().map(|i| snap.witnesses[*i]).collect();
-            Ok(Honest { snap, meta, verdict, outs })
+            let layout = m1::layout_key(&snap);
+            Ok(Honest { layout, snap, meta, verdict, outs })
         }
     }
 }
@@ -112,7 +114,7 @@ pub fn run_dev(g: &Gadget, h: &Honest, d: &Dev) -> DevOutcome {
             let meta = meta.lock().unwrap().clone();
             let verdict = m1::decide(&h.snap, &snap);
             let outs = meta.outs.iter().map(|i| snap.witnesses[*i]).collect();
-            let same_layout = m1::layout_key(&snap) == m1::layout_key(&h.snap);
+            let same_layout = m1::layout_key(&snap) == h.layout;
             DevOutcome::Decided { verdict, outs, same_layout }
         }
     }
